@@ -415,3 +415,25 @@ def c12(ev, tier, seed):
         conn_model(ev, "C12", seed, "faults-cuts2", 24, ["basic"], faults=("eof", "werr"), maxcuts=2)
     ev.exhaustive = False
     ev.assumptions = CONN_ASSUME + ["'for a handler that propagates I/O errors': every handler program returns the error of a failed read or write"]
+
+
+@check("C10")
+def c10(ev, tier, seed):
+    ev.rule = ("MC_Writer: three tasks (stdout writer, stderr writer, and a clone of the stdout writer or the request's own reply "
+               "flushing) with programs over write sizes 0,1,2,3,5,7,8,9,16 (+ 65535, 65536, 70000 in menu 5) and flush; any runnable "
+               "task may be polled whenever no poll is in progress; the transport accepts bytes up to every structural boundary of a "
+               "record image (inside the header, header/payload seam, inside the payload, payload/padding seam, inside the padding) "
+               "or returns Pending (the lock stays with the task). Invariants NoInterleave, LockHeldWhileWriting, PerWriterOrder, "
+               "ExactlyOnce. Every complete behaviour is replayed on real StreamWriters taken from a real Request (tasks polled in "
+               "the behaviour's order) and the bytes reaching the client are compared with the record images the specification lists. "
+               "Non-trivial: behaviours with lock contention or a Pending transport.")
+    menus = "{1, 2, 3, 4}" if tier == "quick" else "{1, 2, 3, 4, 5}"
+    cuts, pends = (1, 2) if tier == "quick" else (2, 2)
+    cfg = ("SPECIFICATION Spec\nCONSTANTS\n  NT = 3\n  MaxCuts = %d\n  MaxPend = %d\n  Menu = %s\n"
+           "INVARIANTS NoInterleave LockHeldWhileWriting PerWriterOrder ExactlyOnce Emit\nCHECK_DEADLOCK FALSE\n" % (cuts, pends, menus))
+    stats, h = cl.run_tlc_piped("C10-writer", "MC_Writer", cfg, ["writer-replay", "--seed", str(seed)], workers=max(4, cl.NCPU - 4), heap="16g")
+    ev.add_tlc("MC_Writer menus=%s MaxCuts=%d MaxPend=%d" % (menus, cuts, pends), stats)
+    ev.add_harness("behaviours replayed on real StreamWriters / poll_output", h)
+    ev.exhaustive = False
+    ev.assumptions = ["futures' Mutex is modelled as a plain lock (who is woken when is not part of the property); a task waiting for the lock is polled again once the lock was released",
+                      "single-writer record well-formedness under every cut is additionally covered by the HW_write path of Conn.tla (C07)"]
